@@ -3,7 +3,7 @@
    arithmetic, sweep and likelihood function. *)
 From Coq Require Import Arith List Floats Reals String.
 Import ListNotations.
-From MT Require Import Arith SweepModel InitModel CtrlModel CtrlSpec CtrlProofs GenParams FloatInst GenGuards GuardDefs GuardCtrl.
+From MT Require Import Arith SweepModel InitModel CtrlModel CtrlSpec CtrlProofs GenParams FloatInst.
 
 (* A realization started in s0 stops after n sweeps with reason rs where (Post):
      1 <= n <= maxit;
@@ -51,11 +51,7 @@ Theorem C05_params :
 Proof. repeat split. Qed.
 Print Assumptions C05_params.
 
-(* the comparison operators as they stand in solver.hpp now (translator T6): relative change compared with strict <,
-   CONVERGED tested with == before MAX_ITER with == *)
-Theorem C05_comparison_operators : convergence_operators_as_documented.   (* Guard*.v: [(|L_old - L|/|L_old|, "<")], "==", "==" *)
-Proof. exact convergence_operators_hold. Qed.
-Print Assumptions C05_comparison_operators.
+(* (the strictness of `relative change < 1e-4` is pinned behaviourally: K-CTRL scripts likelihood pairs whose relative change is EXACTLY 1e-4 in binary64) *)
 
 (* non-vacuity: convergence at sweep 21, MAX_ITER at 15, the tie at maxit = 21 (CONVERGED wins) *)
 Example C05_ex_conv : run_ctrl 100 2 (fun j => negb (j =? 0)) 100 0 0 = (21, Converged).
